@@ -98,7 +98,13 @@ def projection(family, c):
         return dict(has=False, nxt=[], cache=0, auth=0, msg=0, st=0, ca=0, cm=0, al=0, ml=0)
 
 
+MACLENS = {"gcm": [4, 8, 12, 13, 15, 16, 16], "ccm": [4, 6, 8, 10, 12, 14, 16, 16], "eax": [2, 4, 8, 12, 15, 16, 16], "ocb": [8, 10, 12, 15, 16, 16]}
+
+
 def replay(family, hist, cfg, r, tid):
+    cfg = dict(cfg)
+    if family in MACLENS and "maclen" not in cfg:
+        cfg["maclen"] = r.choice(MACLENS[family])       # short tags exercise truncation and tag caching
     key = rb(r, keylen(family, r))
     nonce = rb(r, noncelen(family, r))
     c = make(family, key, nonce, cfg)
